@@ -19,6 +19,7 @@ func init() {
 		Assumptions: []string{"sync.WaitGroup semantics; a buffered channel of capacity n accepts n sends without a receiver"},
 		Run:         runC17,
 		Controls: []Control{
+			{Name: "race-result-list-made-empty", File: "pkg/group/exec.go", Old: "\t\tres, i, err := ExecuteRace(ctx, members)\n\t\tallRes := make([]proto.Message, len(members))", New: "\t\tres, i, err := ExecuteRace(ctx, members)\n\t\tallRes := make([]proto.Message, 0, len(members))", Expect: "R17.11"},
 			{Name: "onoff-group-cancel-deferred-past-the-wait", File: "pkg/trait/onoffpb/group.go", Old: "\t\t\t\tcancelFunc()\n\t\t\t\t<-returnErr", New: "\t\t\t\tdefer cancelFunc()\n\t\t\t\t<-returnErr", Expect: "R17.10"},
 			{Name: "write-under-read-strategy", File: "pkg/trait/lightpb/group.go", Old: "\tresults, err := group.Execute(ctx, s.WriteExecution, actions)\n", New: "\tresults, err := group.Execute(ctx, s.ReadExecution, actions)\n", Expect: "R17.9"},
 			{Name: "fast-loop-variable-hoisted", File: "pkg/group/exec.go", Old: "\tvar firstErrResponse *memberResponse\n\tfor response := range executeEach(cancelCtx, members) {", New: "\tvar firstErrResponse *memberResponse\n\tvar response memberResponse\n\tfor response = range executeEach(cancelCtx, members) {", Expect: "R17.5"},
@@ -47,6 +48,8 @@ func runC17(c *an.Ctx) {
 	c.Min("R17.9", 6)
 	r1710(c, "R17.10")
 	c.Min("R17.10", 2)
+	r1711(c, "R17.11")
+	c.Min("R17.11", 1)
 	r177(c)
 	r178(c)
 	c.Min("R17.8", 3)
@@ -1262,4 +1265,41 @@ func r1710(c *an.Ctx, rule string) {
 		})
 	}
 	c.Count("member_waits", n)
+}
+
+// r1711: results are reported at the member's own index - so the slice Execute hands back for the one-winner
+// strategies (One, Fast, Race) has a slot for every member. Each slice it makes has LENGTH len(members); made with
+// length 0 and that capacity, `i < len(results)` is never true, the winner's response is dropped and the caller
+// gets an empty list.
+func r1711(c *an.Ctx, rule string) {
+	fn := mustFunc(c, rule, groupPkg, "", "Execute")
+	if fn == nil || len(fn.Params) < 3 {
+		return
+	}
+	members := fn.Params[2]
+	n := 0
+	for _, f := range append([]*ssa.Function{fn}, an.TransparentCalleesOf(fn, 1)...) {
+		an.Instrs(f, func(in ssa.Instruction) {
+			ms, ok := in.(*ssa.MakeSlice)
+			if !ok {
+				return
+			}
+			n++
+			full := false
+			for _, v := range an.ValuesAt(ms.Len) {
+				if call, isCall := v.(*ssa.Call); isCall && an.CalleeName(call) == "builtin len" {
+					for _, s := range an.Sources(call.Call.Args[0]) {
+						if s == ssa.Value(members) {
+							full = true
+						}
+					}
+				}
+			}
+			c.Check(full, rule, fmt.Sprintf("%s|result list #%d has a slot for every member", an.FuncName(fn), n), ms.Pos(), "length len(members)",
+				"the result list is not made with length len(members): the winner's response cannot be stored at its index and the caller receives a list without it")
+		})
+	}
+	if n == 0 {
+		c.Unk(rule, an.FuncName(fn)+"|result lists", fn.Pos(), "Execute makes no result list")
+	}
 }
